@@ -96,6 +96,26 @@ func genC01(rt *rapid.T) core.Scenario {
 	}
 	nOps := rapid.IntRange(1, 30).Draw(rt, "nOps")
 	var subbed [][2]int
+	if rapid.IntRange(0, 7).Draw(rt, "crowd") == 7 {
+		// a crowd: 9-20 registrations on ONE type before anything else (most of them Once, some filtered), so that
+		// many Once handlers fire in one publish, handler lists grow past their small initial capacities, and the
+		// unsubscribes that follow shrink them again
+		ty := active[0]
+		k := rapid.IntRange(9, 20).Draw(rt, "crowdSize")
+		for i := 0; i < k; i++ {
+			op := C01Op{Kind: "sub", Type: ty, Fn: c01Fn(rapid.IntRange(0, 2*c01Fns-1).Draw(rt, "cFn")), Opts: SubOpts{
+				Once:   rapid.IntRange(0, 3).Draw(rt, "cOnce") > 0,
+				Filter: rapid.SampledFrom([]int{0, 0, 0, 1, 2}).Draw(rt, "cFilter"),
+			}}
+			subbed = append(subbed, [2]int{op.Type, op.Fn})
+			sc.Ops = append(sc.Ops, op)
+		}
+		for i := rapid.IntRange(0, 8).Draw(rt, "crowdUnsubs"); i > 0; i-- {
+			sc.Ops = append(sc.Ops, C01Op{Kind: "unsub", Type: ty, Fn: c01Fn(rapid.IntRange(0, 2*c01Fns-1).Draw(rt, "cuFn"))})
+		}
+		id++
+		sc.Ops = append(sc.Ops, C01Op{Kind: "pub", Type: ty, ID: id*6 + rapid.IntRange(0, 5).Draw(rt, "cRes")}, C01Op{Kind: "count", Type: ty})
+	}
 	for i := 0; i < nOps; i++ {
 		op := drawOp("o", false)
 		if op.Kind == "sub" {
